@@ -325,6 +325,28 @@ def handleStat (op : String) (a : List String) (impl : String) : Option Verdict 
             else pure (.bad s!"{renderVal v1};{renderVal v2}")
           | _ => pure (.bad "two values")
         | _, _ => pure (.bad "model: statistic not applicable to this shape")
+  | "st.harm", [ps, los, his] => do
+    -- `p_harmonic(n, p)` for every n in lo..=hi: the model's value at `lo`, then one exact term added per step; the model's own
+    -- `harmonicP hi p` closes the chain
+    let p ← ps.toNat?; let lo ← los.toNat?; let hi ← his.toNat?
+    let toks := impl.splitOn ";"
+    if hi < lo || toks.length != hi + 1 - lo then pure (.bad s!"{hi + 1 - lo} values expected") else
+    match harmonicP (α := XR) lo p with
+    | .fin start =>
+      let rec go (n : Nat) (acc : Rat) : List String → Option Nat × Rat
+        | [] => (none, acc)
+        | tk :: rest =>
+          let ok := match parseHexNat tk with
+            | some b => tk.length == 16 && (f64OfBits b).agrees (.fin acc) (some acc)
+            | none => false
+          if !ok then (some n, acc) else
+          go (n + 1) (if n == 0 then acc else acc + 1 / (((n ^ p : Nat) : Int) : Rat)) rest
+      match go lo start toks with
+      | (some n, acc) => pure (.bad s!"n={n}: {(XR.fin acc).render}")
+      | (none, _) =>
+        if harmonicP (α := XR) hi p == .fin ((go lo start (toks.take (hi - lo))).2) then pure (.ok s!"harm-p{p}-{if hi ≤ 171 then "le171" else if hi ≤ 1024 then "le1024" else "gt1024"}")
+        else pure (.bad "model: running sum and harmonicP disagree")
+    | _ => pure (.bad "model: harmonicP not finite")
   | "st.geno", [ks, cs, ss, rs] | "st.genocli", [ks, cs, ss, rs] => do
     let kinds ← parseKinds ks
     let cols := splitCsv cs
